@@ -696,9 +696,19 @@ func c10Read(w *World, r *Report, t *types.Named) {
 			}
 		})
 	}
+	// a count handed back together with an error (a short device read) also moves the cursor by what it reports
+	anyLeaf := map[ssa.Value]bool{}
+	for l := range leafSet {
+		anyLeaf[l] = true
+	}
+	for _, ret := range returnsOf(rd) {
+		for _, l := range accumLeaves(retResult(ret, 0)) {
+			anyLeaf[l] = true
+		}
+	}
 	same := len(inc) > 0
 	for _, v := range inc {
-		if !leafSet[v] {
+		if !anyLeaf[v] {
 			same = false
 		}
 	}
